@@ -144,10 +144,10 @@ Definition otext_eqb (a b : option text) : bool :=
   | _, _ => false
   end.
 
-(* ResultItem<Annotation>::validate_text *)
-Definition validate_ann (txts : list text) (s : store) (a : ann) : option bool :=
+(* ResultItem<Annotation>::validate_text, on the strings of its text selections *)
+Definition validate_on (s : store) (a : ann) (ps : list text) : option bool :=
   let delim := odflt (ann_vstr s a KDEL) in
-  let j := text_join delim (ann_pieces txts s a) in
+  let j := text_join delim ps in
   match ann_vstr s a KCHK with
   | Some refsum =>
       if negb (otext_eqb (text_checksum j) (Some refsum)) then Some false
@@ -161,6 +161,9 @@ Definition validate_ann (txts : list text) (s : store) (a : ann) : option bool :
       | None => None
       end
   end.
+
+Definition validate_ann (txts : list text) (s : store) (a : ann) : option bool :=
+  validate_on s a (ann_pieces txts s a).
 
 (** * protect_text *)
 
